@@ -208,7 +208,8 @@ def gen_programs(seed, count):
         out.append('fn c17_prog_%d(v0: Vector3<R>, v1: Vector3<R>, m0: Matrix3<R>, m1: Matrix3<R>, s0: R, s1: R, q0: Quaternion<R>, q1: Quaternion<R>, p0: Point3<R>) {' % k)
         out += body + checks + ['    vcover("end");', '}']
     out.append('}')
-    open(os.path.join(V, 'harness', 'src', 'c17_prog.rs'), 'w').write('\n'.join(out) + '\n')
+    # (VERIF_HDIR: the scratch copy of the harness crate when the driver runs against a scratch copy of /repo)
+    open(os.path.join(os.environ.get('VERIF_HDIR') or os.path.join(V, 'harness'), 'src', 'c17_prog.rs'), 'w').write('\n'.join(out) + '\n')
 
 
 if __name__ == '__main__':
